@@ -65,7 +65,7 @@ CLAIMED = {
             "oracle = independent recursive python implementation.",
             "model Model/TreeHash.v hand-written over an abstract hash; the miner-transaction hash is an input of the block ops (C05 covers it); tie = correspondence check",
             "Coq proof (refinement to recursive spec) + correspondence", "4 C06"),
-    "C13": ("Coq theorems (Props/C13.v, 20): secret key accepted iff 32 bytes encoding an integer < l; accepted keys give back the same bytes in "
+    "C13": ("Coq theorems (Props/C13.v, 23): secret key accepted iff 32 bytes encoding an integer < l; accepted keys give back the same bytes in "
             "binary/hex/consensus form; parsers accept only canonical input (unconditional). Public key accepted iff it is compress P of a valid "
             "point; operators are the group operations on the encoded points; pub(a+b)=pub a+pub b, a(bG)=(ab)G, (P+Q)-Q=P; panic iff a stored key "
             "does not decompress - proved for EVERY group satisfying the EdLaws record (_partial). On the executable Ed25519 model accepted keys have "
@@ -74,7 +74,7 @@ CLAIMED = {
             "PARTIAL: group laws of the curve are hypotheses (EdLaws, shown satisfiable); for the executable model 13 of the 22 are proved, the remaining 9 (closure under +, associativity, P-P=O, distributivity, order of G, decompress/compress) "
             "are validated by KATs and computation on every case, not proved (no elliptic-curve or primality library available)",
             "Coq proof over an abstract group (partial) + correspondence", "4 C13"),
-    "C10": ("Coq theorems (Props/C10.v, 10): derivation(a,B) = 8(aB) = (8a)B for every valid point / accepted key; a small-order component is "
+    "C10": ("Coq theorems (Props/C10.v, 13): derivation(a,B) = 8(aB) = (8a)B for every valid point / accepted key; a small-order component is "
             "cleared (B'+T -> (8a mod l)B'); sender derivation = receiver derivation; one-time key = Hs(D||varint i)G + S, recognised by the receiver - "
             "for EVERY group satisfying EdLaws (_partial) and every Hs. Correspondence: all eight torsion offsets x boundary scalars; model = library "
             "= independent python.",
@@ -123,11 +123,11 @@ CLAIMED = {
             "PARTIAL: serde, serde_derive, serde_json, serde-big-array and the serde impls of fixed-hash / curve25519-dalek are modelled, not verified; "
             "JSON text parsing is not modelled (python's json module reads the text); ExtraField/SubField/PublicKey derives not covered",
             "Coq proof over a modelled serde data model (partial) + correspondence", "4 C19"),
-    "C07": ("Coq theorems (Props/C07.v, 10): soundness of every reported (position, index, key) - position in range, index in the scanned ranges, "
+    "C07": ("Coq theorems (Props/C07.v, 15): soundness of every reported (position, index, key) - position in range, index in the scanned ranges, "
             "key = first TxPublicKey or the additional key at that position (only if the main key did not match), view tag passed, "
             "P = Hs(8vK||varint pos)G + S_idx; positions strictly increasing; not-reported when no key matches; completeness w.r.t. an independent "
             "sender specification (Spec/Sender.v: primary and subaddress destinations, main or additional key, tagged or untagged) with exact "
-            "(index, key) under explicit no-other-match hypotheses; reported <-> matches for EVERY transaction (not only sender-built ones) when the spend key is an accepted key, with a refutation witness showing that hypothesis is needed; the three entry points agree - for EVERY group satisfying EdLaws (_partial) "
+            "(index, key) under explicit no-other-match hypotheses; reported <-> matches for EVERY transaction (not only sender-built ones) when the spend key is an accepted key, with a refutation witness showing that hypothesis is needed; SubKeyChecker::check is check_key of the scan, sound and complete in the same sense; the look-up is last-insert-wins; extra-field keys are accepted exactly when PublicKey::from_slice accepts them; the three entry points agree - for EVERY group satisfying EdLaws (_partial) "
             "and every hash. Correspondence: model sender builds the bytes; library = model = independent python sender + scanner on "
             "n in {1,2,3,130,260} (thorough 2000, 20000), all RingCT types, all output classes.",
             "PARTIAL: group laws are hypotheses (EdLaws); HashMap modelled as last-insert-wins association list; completeness relative to "
